@@ -19,6 +19,28 @@ func zzDecl(form, ka, kb, sp int) (text string, lo, hi uint64, loHuge, hiHuge, h
 		pad = " "
 	}
 	var a, b string
+	if rt.Param("nines") > 0 {
+		// 19 concrete nines in front of the symbolic digits: every such number is >= 10^19*9 and
+		// with one more digit exceeds 2^64, i.e. it overflows int (the parser's clamp is exercised)
+		defer func() {
+			nn := "9999999999999999999"
+			text = ""
+			switch form {
+			case 0:
+				text = "[" + pad + nn + a + pad + "]"
+				loHuge, hiHuge = true, true
+			case 1:
+				text = "[" + pad + nn + a + pad + ".." + pad + nn + b + pad + "]"
+				loHuge, hiHuge = true, true
+			case 2:
+				text = "[" + pad + nn + a + pad + ".." + pad + "]"
+				loHuge = true
+			case 3:
+				text = "[" + pad + ".." + pad + nn + b + pad + "]"
+				hiHuge = true
+			}
+		}()
+	}
 	switch form {
 	case 0:
 		a, lo, loHuge = zzDigits("a", ka, 10)
